@@ -115,6 +115,88 @@ pub fn alphabet(f: &F) -> Vec<(&'static str, String)> {
     ]
 }
 
+/// E5 alphabet for C08: one op per (pipeline, format, input). Pipelines: the enum parser, the lexical
+/// parser, lexical parse + fold - all on the shared static format instances - and the lexical parser
+/// on a format instance created (and dropped) inside the op. Inputs: the alphabet above, a number
+/// list whose first entry is fine and whose second is malformed (a failing call that has already
+/// stored something), and names holding the supplementary-plane "twin" (same low 16 bits) of a
+/// keyword character. Outcome = Err or the canonical value, so ANY dependence on earlier calls shows.
+pub fn history_inputs(f: &F) -> Vec<(String, String)> {
+    let f = *f;
+    {
+        let e = f.e;
+        let s = &e.sentence;
+        let t = &e.task;
+        let mut inputs: Vec<(String, String)> = alphabet(&f).into_iter().map(|(n, x)| (n.to_string(), x)).collect();
+        inputs.push(("truth-valid-then-malformed".into(), format!("a{} {}0.5{}1.2.3{}", s.punctuation_judgement, s.truth_brackets.0, s.truth_separator, s.truth_brackets.1)));
+        inputs.push(("budget-valid-then-malformed".into(), format!("{}0.25{}0..5{} a{}", t.budget_brackets.0, t.budget_separator, t.budget_brackets.1, s.punctuation_judgement)));
+        inputs.push(("budget-valid-then-out-of-range".into(), format!("{}0.25{}7{} a{}", t.budget_brackets.0, t.budget_separator, t.budget_brackets.1, s.punctuation_judgement)));
+        inputs.push(("image-no-placeholder".into(), format!("{}{}{}a{}b1{}", e.compound.brackets.0, e.compound.connecter_image_extension, e.compound.separator, e.compound.separator, e.compound.brackets.1)));
+        inputs.push(("image".into(), emit::join(&emit::term_toks(&f, &R::image(Tag::ImageExt, 1, vec![R::word("r"), R::word("x")])), "")));
+        // twins: for a few keyword characters c, the identifier character c + 0x10000 inside a name
+        let kw_chars: Vec<char> = [s.punctuation_judgement, e.statement.brackets.0, e.statement.brackets.1, e.statement.copula_inheritance, e.compound.separator, e.compound.brackets_set_extension.0, e.space.parse]
+            .iter()
+            .filter_map(|k| k.chars().next())
+            .collect();
+        for c in kw_chars {
+            for off in [0x10000u32, 0x100] {
+                if let Some(tw) = char::from_u32(c as u32 + off).filter(|x| x.is_alphanumeric()) {
+                    let name = format!("a{tw}b");
+                    let st = R::pair(Tag::Inh, R::word(&name), R::word("c"));
+                    inputs.push((format!("twin-of-{c:?}+{off:x}"), format!("{}{}", emit::join(&emit::term_toks(&f, &st), ""), s.punctuation_judgement)));
+                }
+            }
+        }
+        inputs
+    }
+}
+
+pub fn history_ops() -> Vec<crate::history::Op> {
+    use crate::history::Op;
+    let mut v = vec![];
+    for f in fmts::all() {
+        let inputs = history_inputs(&f);
+        for (n, x) in &inputs {
+            let (f1, x1) = (f, x.clone());
+            v.push(Op::new(format!("enum-parse[{}] {n}: {x:?}", f.name), move || match outcome(&ops::parse_enum(&f1, &x1)) {
+                Ok(cv) => show_cv(&cv),
+                Err(()) => "Err".into(),
+            }));
+            let (f2, x2) = (f, x.clone());
+            v.push(Op::new(format!("lexical-parse+fold[{}] {n}: {x:?}", f.name), move || {
+                let l = match ops::parse_lex(&f2, &x2) {
+                    Ok(l) => l,
+                    Err(_) => return "lexical Err".into(),
+                };
+                let shown = format!("{l:?}");
+                match outcome(&ops::fold(&f2, l)) {
+                    Ok(cv) => format!("{shown} => {}", show_cv(&cv)),
+                    Err(()) => format!("{shown} => fold Err"),
+                }
+            }));
+        }
+        // a format instance of the caller's own, created and dropped around one parse
+        for n in ["sentence", "term", "atom-ending-in-copula-head", "task"] {
+            let x = inputs.iter().find(|(m, _)| m == n).map(|(_, x)| x.clone()).unwrap_or_default();
+            let name = f.name;
+            v.push(Op::new(format!("lexical-parse on an owned format[{name}] {n}: {x:?}"), move || {
+                use narsese::conversion::string::impl_lexical::format_instances as fi;
+                let own = match name {
+                    "ascii" => fi::create_format_ascii(),
+                    "latex" => fi::create_format_latex(),
+                    _ => fi::create_format_han(),
+                };
+                match quiet_catch(AssertUnwindSafe(|| own.parse(&x).map_err(|e| e.to_string()))) {
+                    Ok(Ok(l)) => format!("{l:?}"),
+                    Ok(Err(_)) => "Err".into(),
+                    Err(p) => format!("PANIC: {p}"),
+                }
+            }));
+        }
+    }
+    v
+}
+
 fn residue_string(r: &narsese::api::NarseseOptions<narsese::enum_narsese::Budget, narsese::enum_narsese::Term, narsese::enum_narsese::Punctuation, narsese::enum_narsese::Stamp, narsese::enum_narsese::Truth>) -> String {
     format!(
         "budget={:?} term={} punct={:?} stamp={:?} truth={:?}",
@@ -601,5 +683,8 @@ pub fn run(run: &Run) {
                 run.violation(&format!("[{}] parsing {s:?} twice gives different results", f.name), json!({"op": "parse_sequence", "format": f.name, "inputs": [s, s]}), &[]);
             }
         }
-    }
+    }    // E5: state hidden outside the parser object (thread-locals, statics): every ordered pair of
+    // calls over all pipelines and formats, each pair on a brand-new thread, against fresh-process baselines
+    run.rule("call histories: every ordered pair of (pipeline, format, input) calls on a brand-new thread vs the same call in a fresh process");
+    crate::history::explore(run, "C08", &history_ops(), 2, &[]);
 }
